@@ -292,10 +292,8 @@ Example C09_wide_nonvacuous :
   filter_period_intersect a b = Ok [e 1 2 3 5; e 3 3 0 5].
 Proof.
   cbv zeta. split; [|split; [|split]].
-  - vm_compute. repeat split; try (intro H; discriminate H);
-      try (intros b [<-|[<-|[]]]); try (intros b [<-|[]]); try (intros b []); vm_compute;
-      repeat split; intro H; discriminate H.
+  - wchain_concrete.
   - vm_compute. intros (_ & H & _). apply H. reflexivity.
-  - vm_compute. repeat split; try (intro H; discriminate H). intros b [].
+  - wchain_concrete.
   - vm_compute. reflexivity.
 Qed.
